@@ -24,7 +24,7 @@ def op_coq(op):
     if k == 'notify':
         return 'OpNotify %s %s %s' % (zz(op[1]), zz(op[2]), zl(op[3]))
     if k == 'job':
-        return 'OpJob %s' % zz(op[1])
+        return 'OpJob %s %s' % (zz(op[1]), zz(op[2] if len(op) > 2 else 0))
     if k == 'send':
         _, now, dp, pf, ps, prio, sa, data, tl, ff = op
         return 'OpSend %s %s %s %s %s %s (PLit %s)' % (zz(now), zz(dp), zz(pf), zz(ps), zz(prio), zz(sa), zl(data))
